@@ -243,9 +243,10 @@ def eval_spec(spec):
                 tol = None
             # POVM / measurement-process tomography with on_para_eq_constraint=True: the last element is a dependent
             # variable, the installed projection is a nearest-point map for a different metric than the gradient's (D13)
-            # (established for the relative-entropy losses on exact data of rank-deficient objects only)
+            # (established for the relative-entropy losses only -- interior and rank-deficient truths; the squared-error
+            # losses recover the truth to 2e-6 in this parametrisation as well and keep the plain signature)
             dep = spec["para"] and fam == "pgdb" and (kind == "qmpt" or (kind == "povmt" and (m or 0) > 2)) \
-                and data == "exact_b" and est[1] in ("re", "fre")
+                and est[1] in ("re", "fre")
             cls = kind + ("-dependent-element-parametrisation" if dep else "")
             if tol is not None and dist > tol:
                 viol(f"C10/{fam}/{cls}/exact-data-not-recovered",
